@@ -190,6 +190,20 @@ theorem wrapUCore_refines (isMap : Bool) (w s : St) (hr : RelU w s) (c : UCall) 
   | contents c =>
     simp only [wrapUCore, UCall.spec, canon_perm (hr.get c)]
     exact ⟨trivial, hr⟩
+  | constructRange c ys =>
+    obtain ⟨h1, h3⟩ := insertMany_rel ys [] [] (Perm.refl _) nodupKeys_nil
+    simp only [wrapUCore, UCall.spec]
+    exact ⟨trivial, hr.put c _ _ h1 h3⟩
+  | constructList c ys =>
+    obtain ⟨h1, h3⟩ := insertMany_rel ys [] [] (Perm.refl _) nodupKeys_nil
+    simp only [wrapUCore, UCall.spec]
+    exact ⟨trivial, hr.put c _ _ h1 h3⟩
+  | reserve c n => simp only [wrapUCore, UCall.spec]; exact ⟨trivial, hr⟩
+  | rehash c n => simp only [wrapUCore, UCall.spec]; exact ⟨trivial, hr⟩
+  | maxLoadFactor c =>
+    -- the rebuilt table is the old table: its keys are distinct
+    simp only [wrapUCore, UCall.spec, rebuild_eq _ ((hr.nodup c).perm (hr.get c)), St.put_get']
+    exact ⟨trivial, hr⟩
 
 /-- an oracle may only re-arrange a table -/
 def Rearranges (ρ : Nat → List Item → List Item) : Prop := ∀ n xs, (ρ n xs).Perm xs
